@@ -372,6 +372,8 @@ def describe(case, ps=None, fl=None, extra=()):
 # strategies
 
 def _weight(draw, wkind):
+    if wkind == "int_small":            # many exact ties along and across paths
+        return draw(st.integers(1, 2))
     if wkind == "int":
         return draw(st.integers(1, 6))
     if wkind == "dyadic":
@@ -417,12 +419,14 @@ def _digraph(draw, n, wkind):
 
 @st.composite
 def graph_case(draw, kinds=("conserved", "digraph", "perturbed"), nmax=9, with_scheme=True,
-               schemes=("subtract", "bottleneck")):
+               schemes=("subtract", "bottleneck"), wkinds=None):
     kind = draw(st.sampled_from(kinds))
     n = draw(st.sampled_from([k for k in (3, 4, 4, 5, 5, 6, 6, 7, 7, 8, 9) if k <= nmax]))
     dtype = draw(st.sampled_from(["float64", "float64", "float64", "float32", "int64"]))
     wkind = "int" if dtype == "int64" else draw(st.sampled_from(
         ["int", "dyadic"] if dtype == "float32" else ["int", "dyadic", "float", "float"]))
+    if wkinds:
+        wkind = draw(st.sampled_from(list(wkinds)))
     if kind == "digraph":
         F, sources, sinks = _digraph(draw, n, wkind)
     else:
@@ -689,6 +693,11 @@ CLAUSES = [
            doc="every path of paths() is a real pathway of the residual graph of its turn"),
     Clause("paths_widest", graph_case(), run_paths_widest, quick=800, thorough=24000,
            doc="every path of paths() is the widest of the residual graph of its turn (first = top path)"),
+    Clause("paths_widest_ties", graph_case(kinds=("conserved", "perturbed"), schemes=("bottleneck", "bottleneck", "subtract"),
+                                           wkinds=("int_small", "int_small", "int")), run_paths_widest, quick=5000, thorough=40000,
+           doc="tie-heavy integer flows: successive paths are the widest of the (tie-tolerant) residual of their turn"),
+    Clause("reaches_fraction_ties", graph_case(kinds=("conserved",), wkinds=("int_small", "int")), run_reaches_fraction,
+           quick=4000, thorough=30000, doc="requested fraction reached on tie-heavy conserved integer flows"),
     Clause("monotone", graph_case(), run_monotone, quick=600, thorough=16000,
            doc="successive pathway fluxes never increase"),
     Clause("sum_bound", graph_case(), run_sum_bound, quick=1200, thorough=40000, exhaustive=exhaustive(BOTH),
